@@ -227,7 +227,7 @@ def run(ctx: core.Ctx):
             elif term.is_monotonic():
                 ctx.violation(f"{k}.is_monotonic", {"k": k}, False, True)
             # random doubles strictly inside the regions between consecutive finite points
-            if gi % (4 if ctx.quick else 1) == 0:
+            if gi % (4 if ctx.quick else 1) == 0 or palette == "narrow":
                 fin = sorted({(to_float(c["x"][0])) for c in cases if c["x"][1] == 0 and c["x"][0][0] == 0})
                 reg = {}
                 for c in cases:
@@ -237,8 +237,13 @@ def run(ctx: core.Ctx):
                     c = reg.get((a, 1)) or reg.get((a, 0))
                     if c is None or b - a < 1e-9:
                         continue
-                    for _ in range(2 if ctx.quick else 6):
-                        xd = a + (b - a) * rng.uniform(0.02, 0.98)
+                    # ... and a thousandth, a millionth and a billionth of the region away from either end (a tolerance comparison
+                    # on the argument - x "close to" a vertex - shows there, not at the vertex and not in the middle)
+                    fracs = [rng.uniform(0.02, 0.98) for _ in range(2 if ctx.quick else 6)] + [1e-3, 1 - 1e-3, 1e-6, 1 - 1e-6, 1e-9, 1 - 1e-9]
+                    for fr_ in fracs:
+                        xd = a + (b - a) * fr_
+                        if not a < xd < b:
+                            continue
                         env = dict(env0, x=Fraction(xd))
                         exp = kexpr.value(c["f"], env)
                         got = float(term.membership(xd))
